@@ -78,9 +78,10 @@ def _ragged(ctx, st):
     st.L = z3.Function("rowlen", z3.IntSort(), z3.IntSort())
     st.x = z3.Function("x", z3.IntSort(), z3.IntSort())
     st.comp = z3.Function("comp", z3.IntSort(), z3.IntSort())
-    st.C = M.exclusive_prefix(lambda i: st.L(i), st.n)
+    st.Lf = lambda i: st.L(I(i))
+    st.C = M.exclusive_prefix(st.Lf, st.n)
     st.N = st.C(st.n)
-    st.seq = SRaggedObj(lambda p: st.x(I(p)), st.n, lambda i: st.C(I(i)), lambda i: st.L(I(i)), "BaseEncoding", st.N, contiguous=True, C=st.C)
+    st.seq = SRaggedObj(lambda p: st.x(I(p)), st.n, lambda i: st.C(I(i)), st.Lf, "BaseEncoding", st.N, contiguous=True, C=st.C)
     return st
 
 
@@ -95,7 +96,7 @@ class _AbstractLookup:
 
 def _req_rag(ctx, st):
     ctx.assume(st.n >= 0, Forall(lambda i: Implies(in_range(i, st.n), st.L(i) >= 0), triggers=[st.L], name="row lengths >= 0"))
-    M.prefix_monotone(st.C, lambda i: st.L(i), st.n)
+    M.prefix_monotone(st.C, st.Lf, st.n)
     return []
 
 
@@ -143,3 +144,68 @@ reverse_complement = Contract("C14.get_reverse_complement[ragged]", target=lambd
                               canaries=[("not reversed", "complement(sequence)[..., ::-1]", "complement(sequence)[..., ::1]")])
 
 CONTRACTS = [ascii_table, complement, reverse_complement]
+
+
+# --- K4: translation works codon by codon and never across a row border (WindowFunction.windowed) ---------------------------------------------
+# For rows whose lengths are multiples of 3: output row r has L_r / 3 entries and entry t is the table's value for exactly the codon
+# x[s_r + 3t], x[s_r + 3t + 1], x[s_r + 3t + 2] of the SAME row (the codon -> amino acid table itself, 64 entries, is checked exhaustively
+# by the bounded enumerator).  Lemma by induction: row starts are multiples of 3 (C(r) = 3 * C3(r)).
+def _WF():
+    from bionumpy.sequence.translate import Translate
+    return Translate
+
+
+class _CodonFn:
+    def __init__(self, st):
+        self.st = st
+
+    def sym_call(self, ip, args, kwargs, lineno):
+        st, c = self.st, ip.ctx
+        t = args[0]
+        c.oblige("%s:callee.codon.matrix.shape" % c.fname, And(I(t.cols) == 3, 3 * I(t.rows) == st.N), "requires")
+        f2 = t.snapshot2()
+        return SArr.fresh(t.rows, lambda k: st.AA(I(f2(k, 0)), I(f2(k, 1)), I(f2(k, 2))))
+
+
+def _setup_k4(ctx):
+    st = _ragged(ctx, St())
+    st.AA = z3.Function("amino_acid_of_codon", z3.IntSort(), z3.IntSort(), z3.IntSort(), z3.IntSort())
+    st.selfv = SRec(_WF(), _encoding="TCAG", _table=SRec(None, to_encoding="BaseEncoding"))
+    st.selfv.set("__call__", _CodonFn(st))
+    st.args = [st.seq]
+    return st
+
+
+def _req_k4(ctx, st):
+    _req_rag(ctx, st)
+    st.K = z3.Function("codons_in_row", z3.IntSort(), z3.IntSort())
+    return [Forall(lambda i: Implies(in_range(i, st.n), And(st.L(i) == 3 * st.K(i), st.K(i) >= 0)), triggers=[st.L], name="row lengths are multiples of 3")]
+
+
+def _ghost_k4(ip, env, st):
+    """before the flat data is cut into codons: row starts are multiples of 3 (C(i) = 3 * CK(i), induction over both recurrences)"""
+    st.CK = M.exclusive_prefix(lambda i: st.K(I(i)), st.n)
+    ip.ctx.induct("C14.windowed:lemma.row.starts.are.multiples.of.3", lambda i: st.C(i) == 3 * st.CK(i), st.C, lo=0, hi=st.n)
+
+
+def _ens_k4(ctx, st, ret):
+    third = lambda r: ctx.divmod_(st.L(I(r)), 3)[0]
+    return [("rows", I(ret.n) == st.n),
+            ("row.length.is.a.third", Forall(lambda r: Implies(in_range(r, st.n), 3 * I(ret.lens(r)) == st.L(r)))),
+            ("entry.t.is.the.codon.t.of.the.same.row", Forall(lambda r, t: Implies(And(in_range(r, st.n), in_range(t, ret.lens(r))),
+                                                                                  And(ret.at(r, t) == st.AA(st.x(st.C(r) + 3 * t), st.x(st.C(r) + 3 * t + 1), st.x(st.C(r) + 3 * t + 2)),
+                                                                                      st.C(r) + 3 * t + 2 < st.C(r) + st.L(r))), nvars=2))]
+
+
+def _setup_k4b(ctx):
+    st = _setup_k4(ctx)
+    _hold["st"] = st
+    return st
+
+
+windowed = Contract("C14.WindowFunction.windowed[codons]", target=lambda: _WF().windowed, setup=_setup_k4b, requires=_req_k4, ensures=_ens_k4,
+                    callees=CALLEES, ghost=[("tuples = sequences.ravel()", _ghost_k4)],
+                    hints=lambda ctx, st, ks: [st.C(st.n)] + ([st.C(ks[0]), st.C(ks[0] + 1)] if ks else []),
+                    canaries=[("window of 2", "tuples = sequences.ravel().reshape(-1, self.window_size)", "tuples = sequences.ravel().reshape(-1, 2)"),
+                              ("row lengths not divided", "sequences.lengths // self.window_size)", "sequences.lengths)")])
+CONTRACTS.append(windowed)
